@@ -508,6 +508,9 @@ def _round(x, decimals=0, **kw):
         if decimals >= 10:
             _st.ENGINE.trust("np.round(x, d>=10) of a symbolic value is treated as x (|error| <= 5e-11)")
             return x
+        if decimals == 0 and isinstance(x, SV):
+            # rounding to an integer: the fresh-integer model of SV.__round__ (|x - n| <= 1/2, ties to even)
+            return SV(z3.ToReal(z3int(round(x)))) if hasattr(x, "__round__") else x
         raise Undecided("np.round of a symbolic value to few decimals")
     return _np.round(x, decimals, **kw)
 NP.round = _round
